@@ -16,34 +16,34 @@ import (
 )
 
 type Node struct {
-	n      int
-	feas   []int8 // 0 unknown, 1 feasible, 2 infeasible
-	done   []bool
-	child  []*Node
-	aux    uint64 // cached model value (concretize) / flags
-	auxSet bool
+	n       int
+	feas    []int8 // 0 unknown, 1 feasible, 2 infeasible
+	done    []bool
+	child   []*Node
+	aux     uint64 // cached model value (concretize) / flags
+	auxSet  bool
 	checked bool // assertion at this node already decided
 }
 
 type Thread struct {
-	id       int
-	frames   []*Frame
-	done     bool
-	blocked  bool
-	blockOn  string
-	wake     *wakeInfo
-	granted  bool // the pending sync op has been scheduled
-	quiesceOK bool
+	id          int
+	frames      []*Frame
+	done        bool
+	blocked     bool
+	blockOn     string
+	wake        *wakeInfo
+	granted     bool // the pending sync op has been scheduled
+	quiesceOK   bool
 	wasWaitingW bool
-	panicking *goPanic
+	panicking   *goPanic
 	resumePanic bool
-	mustFinish bool
-	env      bool
-	vc       []int
-	name     string
-	result   Value
-	syncDepth int
-	steps    int
+	mustFinish  bool
+	env         bool
+	vc          []int
+	name        string
+	result      Value
+	syncDepth   int
+	steps       int
 }
 
 type wakeInfo struct {
@@ -54,20 +54,20 @@ type wakeInfo struct {
 }
 
 type Frame struct {
-	fn      *ssa.Function
-	block   *ssa.BasicBlock
-	prev    *ssa.BasicBlock
-	pc      int
-	env     map[ssa.Value]Value
-	defers  []*deferred
-	dst     ssa.Value // where the caller wants the result (in caller frame)
-	caller  *Frame
-	loops   map[int]int
-	unwinding bool
-	onReturn func(res Value) // engine continuation (runSync / intrinsics)
-	tolerant bool
-	results  Value
-	isDefer  bool // frame was started by the defer mechanism
+	fn         *ssa.Function
+	block      *ssa.BasicBlock
+	prev       *ssa.BasicBlock
+	pc         int
+	env        map[ssa.Value]Value
+	defers     []*deferred
+	dst        ssa.Value // where the caller wants the result (in caller frame)
+	caller     *Frame
+	loops      map[int]int
+	unwinding  bool
+	onReturn   func(res Value) // engine continuation (runSync / intrinsics)
+	tolerant   bool
+	results    Value
+	isDefer    bool // frame was started by the defer mechanism
 	deferOwner *Frame
 }
 
@@ -81,24 +81,24 @@ type InputRec struct {
 	Name string
 	Kind string // int, bool, bytes, choose
 	W    int
-	T    *Term   // scalar
-	Arr  *Term   // base array var
-	N    int     // bytes length
-	Val  uint64  // for choose
+	T    *Term  // scalar
+	Arr  *Term  // base array var
+	N    int    // bytes length
+	Val  uint64 // for choose
 }
 
 type Finding struct {
-	Harness   string
-	Assertion string
-	Site      string
-	Msg       string
-	Inputs    map[string]interface{}
-	Schedule  []SchedStep
-	Kind      string // assert | panic | deadlock | race | unwind
-	Confirmed string // "", confirmed, unconfirmed
+	Harness    string
+	Assertion  string
+	Site       string
+	Msg        string
+	Inputs     map[string]interface{}
+	Schedule   []SchedStep
+	Kind       string // assert | panic | deadlock | race | unwind
+	Confirmed  string // "", confirmed, unconfirmed
 	ReplayFile string
-	Known     bool
-	Trace     []string
+	Known      bool
+	Trace      []string
 }
 
 type SchedStep struct {
@@ -109,12 +109,12 @@ type SchedStep struct {
 
 type Stats struct {
 	Paths, Steps, Decisions, SchedPoints, Truncated int
-	Unsupported                              map[string]int
-	Inconclusive                             []string
-	Covers                                   map[string]int
-	Asserts                                  map[string]int // assertion id -> times checked (unsat)
-	MaxDepth                                 int
-	States                                   int
+	Unsupported                                     map[string]int
+	Inconclusive                                    []string
+	Covers                                          map[string]int
+	Asserts                                         map[string]int // assertion id -> times checked (unsat)
+	MaxDepth                                        int
+	States                                          int
 }
 
 type Machine struct {
@@ -123,29 +123,29 @@ type Machine struct {
 	tt     *TermTable
 	solver *Solver
 	// exploration
-	root     *Node
-	forced   []PStep // forced prefix for delegated tasks
-	trace    []int
-	auxes    []PStep
-	nodes    []*Node
-	depth    int
-	pool     *WorkPool
+	root   *Node
+	forced []PStep // forced prefix for delegated tasks
+	trace  []int
+	auxes  []PStep
+	nodes  []*Node
+	depth  int
+	pool   *WorkPool
 	// per-run state
-	pc       []*Term
-	threads  []*Thread
-	cur      *Thread
-	globals  map[*ssa.Global]*Cell
-	nextObj  int
-	inputs   []*InputRec
-	inputCnt map[string]int
-	preempts int
-	schedLog []SchedStep
-	observed map[string]interface{}
-	ufApps   map[string][]*Term
-	ufInv    map[string]string
-	pathDead bool
-	steps    int
-	multi    bool
+	pc             []*Term
+	threads        []*Thread
+	cur            *Thread
+	globals        map[*ssa.Global]*Cell
+	nextObj        int
+	inputs         []*InputRec
+	inputCnt       map[string]int
+	preempts       int
+	schedLog       []SchedStep
+	observed       map[string]interface{}
+	ufApps         map[string][]*Term
+	ufInv          map[string]string
+	pathDead       bool
+	steps          int
+	multi          bool
 	quiesceWaiters int
 	// persistent across runs (per worker)
 	pglobals map[*ssa.Global]*Cell
@@ -153,25 +153,25 @@ type Machine struct {
 	rinited  map[*ssa.Package]bool
 	pnext    int
 	// results
-	stats    Stats
-	findings []*Finding
-	coverModels map[string]*Finding
-	stubFns  map[string]*ssa.Function
-	intr     map[string]intrinsic
-	fnNames  map[*ssa.Function]string
-	onceDone map[*Cell]bool
-	syncSt   map[*Cell]*syncState
-	poolSt   map[*Cell]*poolState
-	curSite  string
-	debug    bool
-	ghostDepth int
-	timeNow  *Term
-	chanWaits map[*ChanObj]*chanWait
+	stats            Stats
+	findings         []*Finding
+	coverModels      map[string]*Finding
+	stubFns          map[string]*ssa.Function
+	intr             map[string]intrinsic
+	fnNames          map[*ssa.Function]string
+	onceDone         map[*Cell]bool
+	syncSt           map[*Cell]*syncState
+	poolSt           map[*Cell]*poolState
+	curSite          string
+	debug            bool
+	ghostDepth       int
+	timeNow          *Term
+	chanWaits        map[*ChanObj]*chanWait
 	inPersistentInit bool
-	raceCheck bool
-	havocSeq int
-	pendAux uint64
-	pendAuxSet bool
+	raceCheck        bool
+	havocSeq         int
+	pendAux          uint64
+	pendAuxSet       bool
 }
 
 type pathEnd struct{ why string }
